@@ -153,6 +153,7 @@ func (s *socket) Construct(id string, server BaseServer, transport transports.Tr
 	}
 
 	s.setTransport(transport)
+	vhook.Yield("socket.Construct.listening")
 	s.onOpen()
 }
 
